@@ -27,7 +27,7 @@ pub type Parsed<T> = Result<T, JsonPathError>;
 ///
 /// Returns a variant of [crate::JsonPathParserError] if the parsing operation failed.
 pub fn parse_json_path(jp_str: &str) -> Parsed<JpQuery> {
-    if jp_str != jp_str.trim() {
+    if jp_str != jp_str.trim_matches(is_blank) {
         Err(JsonPathError::InvalidJsonPath(
             "Leading or trailing whitespaces".to_string(),
         ))
@@ -59,7 +59,7 @@ pub fn segments(rule: Pair<Rule>) -> Parsed<Vec<Segment>> {
 pub fn child_segment(rule: Pair<Rule>) -> Parsed<Segment> {
     match rule.as_rule() {
         Rule::wildcard_selector => Ok(Segment::Selector(Selector::Wildcard)),
-        Rule::member_name_shorthand => Ok(Segment::name(rule.as_str().trim())),
+        Rule::member_name_shorthand => Ok(Segment::name(rule.as_str().trim_matches(is_blank))),
         Rule::bracketed_selection => {
             let mut selectors = vec![];
             for r in rule.into_inner() {
@@ -84,7 +84,7 @@ pub fn segment(child: Pair<Rule>) -> Parsed<Segment> {
     match child.as_rule() {
         Rule::child_segment => {
             let val = child.as_str().strip_prefix(".").unwrap_or_default();
-            if val != val.trim_start() {
+            if val != val.trim_start_matches(is_blank) {
                 Err(JsonPathError::InvalidJsonPath(format!(
                     "Invalid child segment `{}`",
                     child.as_str()
@@ -98,8 +98,8 @@ pub fn segment(child: Pair<Rule>) -> Parsed<Segment> {
                 .as_str()
                 .chars()
                 .nth(2)
+                .map(is_blank)
                 .ok_or(JsonPathError::empty(child.as_str()))?
-                .is_whitespace()
             {
                 Err(JsonPathError::InvalidJsonPath(format!(
                     "Invalid descendant segment `{}`",
@@ -119,7 +119,7 @@ pub fn selector(rule: Pair<Rule>) -> Parsed<Selector> {
     let child = next_down(rule)?;
     match child.as_rule() {
         Rule::name_selector => Ok(Selector::Name(
-            validate_js_str(child.as_str().trim())?.to_string(),
+            validate_js_str(child.as_str().trim_matches(is_blank))?.to_string(),
         )),
         Rule::wildcard_selector => Ok(Selector::Wildcard),
         Rule::index_selector => Ok(Selector::Index(validate_range(
@@ -220,7 +220,7 @@ pub fn singular_query_segments(rule: Pair<Rule>) -> Parsed<Vec<SingularQuerySegm
         match r.as_rule() {
             Rule::name_segment => {
                 segments.push(SingularQuerySegment::Name(
-                    next_down(r)?.as_str().trim().to_string(),
+                    next_down(r)?.as_str().trim_matches(is_blank).to_string(),
                 ));
             }
             Rule::index_segment => {
@@ -332,7 +332,7 @@ pub fn literal(rule: Pair<Rule>) -> Parsed<Literal> {
     }
 
     fn parse_string(string: &str) -> Parsed<Literal> {
-        let string = validate_js_str(string.trim())?;
+        let string = validate_js_str(string.trim_matches(is_blank))?;
         if string.starts_with('\'') && string.ends_with('\'') {
             Ok(Literal::String(string[1..string.len() - 1].to_string()))
         } else if string.starts_with('"') && string.ends_with('"') {
@@ -414,6 +414,11 @@ pub fn comparable(rule: Pair<Rule>) -> Parsed<Comparable> {
         }
         _ => Err(rule.into()),
     }
+}
+
+/// The blank space of RFC 9535: space, horizontal tab, line feed, carriage return
+fn is_blank(c: char) -> bool {
+    matches!(c, ' ' | '\t' | '\n' | '\r')
 }
 
 fn next_down(rule: Pair<Rule>) -> Parsed<Pair<Rule>> {
